@@ -55,6 +55,10 @@ CHECKS = {
    technique="metamorphic monitor on the real CLI in child processes: baseline vs. filtered runs with an independent regexp/doublestar filter model, across working directories and path spellings",
    text="200 (quick) / 5000 (thorough) scratch repositories with 2-7 workflows in nested directories; per project 6 filter sets (-ignore, config paths/ignore, both, everything, none, random) x 8 of 28 (cwd, spelling) pairs. Expected output = unfiltered list minus messages matched by Go regexp, a paths entry applying iff doublestar matches the root-relative path; compared as exact sequences after resolving printed paths; exit status 0/1; a second family checks status 3 (12 fatal classes) and 2 (flag errors).",
    note="stdin input, several repositories in one run, -config-file combined with a repository config and invalid -format are outside the compared domain."),
+ "C16": dict(level="exploration", design="§4 C16",
+   technique="round-trip monitor: the printed output of every reporting mode is parsed back (shipped problem-matcher regexp read at check time, encoding/json) and compared with the returned diagnostics; renderer fuzz on arbitrary positions",
+   text="Workflows with nasty strings (line breaks via escapes and block scalars, CR, tabs, NUL, ANSI escapes, brackets, ':1:2: ', non-ASCII, wide runes) at 31 echo sites, hostile byte variants, the corpus, multi-file runs through LintFiles and the real CLI (default, -no-color, -color, -oneline, -format) and on-disk projects with broken callees and config. Per run: one header per diagnostic that the shipped matcher parses back to the same five fields (so no line breaks in messages), JSON modes round-trip all fields, the snippet is the referenced source line with the caret under the column (ASCII lines), and PrettyPrint / GetTemplateFields / PrintErrors never panic on 1e5 (quick) / 1e7 (thorough) arbitrary (line, column, source) triples.",
+   note="File names are sane (no ':' or line breaks). U+0085/U+2028/U+2029 are not judged as line breaks. shellcheck/pyflakes messages belong to C20."),
  "C17": dict(level="exploration", design="§4 C17",
    technique="reference-model monitor plus reference-free invariants over exhaustively enumerated pattern strings on the real validators",
    text="All strings over a 16-symbol alphabet up to length 5 (quick, 1.1e6) / 6 (thorough) plus random strings up to 40 characters are validated by ValidateRefGlob/ValidatePathGlob and compared with an independent validator written from the cheat sheet and git-check-ref-format; on every string: ref-accept implies path-accept, columns inside the pattern, named character at the column; a Lint sample checks the mapping onto YAML scalars. Exhaustive up to the length bound.",
